@@ -334,6 +334,40 @@ def _native_triple(args):
     return (ff, fs, mx, geo), out
 
 
+# bundles with a spacer-grid CORRELATION (the only case in which set-up uses the bundle + grid flow split) next to the
+# laminar boundary, where the intermittency factor has an infinite slope and the successive substitution of _iterate
+# is not a contraction
+NEAR = [(fs, corr, g, m) for fs in ('CTD', 'UCTD') for corr in ('CDD', 'REH') for g in (0, 1)
+        for m in (0.95, 0.98, 0.995, 1.008, 1.016, 1.03, 1.06)]
+
+
+def _near_laminar(args):
+    fs, corr, geo, m = args
+    import logging
+    from dassh import region_rodded, material
+    from dassh.correlations import friction_ctd
+    logging.getLogger('dassh').setLevel(logging.CRITICAL)
+    n, P, D, Dw, H = [(3, 0.0075, 0.00635, 0.0011, 0.2), (4, 0.00762, 0.00635, 0.0012, 0.127)][geo]
+    inner = 3 ** 0.5 * (n - 1) * P + D + 2 * Dw + 0.0002
+    try:
+        cool = material.Material('sodium', 623.15)
+        duct = material.Material('ht9', 623.15)
+        sg = {'corr': corr, 'corr_coeff': None, 'loss_coeff': None, 'axial_positions': [0.3, 0.6], 'solidity': 0.3}
+        rr = region_rodded.RoddedRegion('a', n, P, D, H, Dw, 0.0005, [inner, inner + 0.004], 1.0, cool, duct, None,
+                                        fs, fs, fs, 'DB', None, spacer_grid=sg)
+        rr.z = [0.0, 1.0]
+        rr._update_coolant_int_params(650.0)
+        bl, bt = friction_ctd.calculate_Re_bounds(rr)
+        r2 = rr.clone(new_flowrate=rr.int_flow_rate * bl * m / rr.coolant_int_params['Re'])
+        r2.z = [0.0, 1.0]
+        r2._init_static_correlated_params(650.0)
+        x = np.asarray(r2.coolant_int_params['fs'], dtype=float)
+        ok = bool(np.all(np.isfinite(x)) and np.all(x > 0))
+        return args, ok, '' if ok else f'fs={x}'
+    except BaseException as e:
+        return args, False, f'{type(e).__name__}: {e} (Re = {m} x laminar boundary)'
+
+
 def extra_checks(tier, seed):
     import multiprocessing as mp
     t0 = time.time()
@@ -341,7 +375,13 @@ def extra_checks(tier, seed):
     jobs = [(a, b, c, g) for a, b, c in itertools.product(FF, FS, MIX) for g in geos]
     with mp.get_context('fork').Pool(16) as pool:
         outs = pool.map(_native_triple, jobs, chunksize=4)
+        near = pool.map(_near_laminar, NEAR, chunksize=4)
     results = []
+    for (fs, corr, g, m), ok, detail in near:
+        results.append(dict(name=f'total.grid_split_near_laminar_boundary[{fs},{corr},geo{g},{m}]',
+                            status='proved' if ok else 'refuted', backend='bounded:run-time contract', seconds=0.0,
+                            detail=detail, witness=dict(values=dict(near=[fs, corr, g, m])),
+                            replay=dict(reproduced=not ok, point=dict(values=dict(near=[fs, corr, g, m])), native=detail)))
     for (ff, fs, mx, g), lst in outs:
         for tag, ok, detail in lst:
             results.append(dict(name=f'total.evaluates[{ff},{fs},{mx},geo{g},{tag}]', status='proved' if ok else 'refuted',
@@ -360,6 +400,11 @@ def extra_checks(tier, seed):
 
 def replay(doc):
     w = (doc.get('witness') or {}).get('values') or {}
+    if 'near' in w:
+        a, ok, d = _near_laminar(tuple(w['near']))
+        print('replay:', a, d)
+        print('not reproduced' if ok else 'REPRODUCED')
+        return 0 if ok else 1
     if 'ff' in w:
         _, lst = _native_triple((w['ff'], w['fs'], w['mix'], w.get('geo', 0)))
         bad = [x for x in lst if not x[1]]
